@@ -62,6 +62,7 @@ fn run(c: &Sx) -> Sx {
             16 => Sx::Z((a as usize) as i128),
             17 => f32_sx(libm_eval(bz, az)?),
             18 => f32_sx(a.powf(b)),
+            19 => Sx::str(&format!("{}", a)),
             _ => return None,
         })
     };
